@@ -1532,6 +1532,88 @@ impl VisitMut for RenameSelf {
     }
 }
 
+/// R-unshadow: a pattern variable of a `while let` / `if let` / `match` arm that has the name of a function
+/// parameter is renamed (`s` => `s__p`) together with its uses in the scope of the pattern. Pure alpha-renaming;
+/// needed because contract text must be able to name the parameter inside such a scope.
+pub fn unshadow_params(sig: &syn::Signature, block: &mut Block, fired: &mut Fired) {
+    let mut params: Vec<String> = Vec::new();
+    for a in sig.inputs.iter() {
+        if let syn::FnArg::Typed(pt) = a {
+            if let Pat::Ident(pi) = &*pt.pat {
+                params.push(pi.ident.to_string());
+            }
+        }
+    }
+    if params.is_empty() {
+        return;
+    }
+    struct Collect<'a> { params: &'a [String], hit: Vec<String> }
+    impl<'a, 'ast> syn::visit::Visit<'ast> for Collect<'a> {
+        fn visit_pat_ident(&mut self, p: &'ast syn::PatIdent) {
+            let n = p.ident.to_string();
+            if self.params.contains(&n) && !self.hit.contains(&n) { self.hit.push(n); }
+        }
+    }
+    struct Ren { from: String, to: String }
+    impl VisitMut for Ren {
+        fn visit_pat_ident_mut(&mut self, p: &mut syn::PatIdent) {
+            if p.ident == self.from { p.ident = syn::Ident::new(&self.to, p.ident.span()); }
+            visit_mut::visit_pat_ident_mut(self, p);
+        }
+        fn visit_expr_path_mut(&mut self, e: &mut syn::ExprPath) {
+            if e.qself.is_none() && e.path.segments.len() == 1 && e.path.segments[0].ident == self.from && e.path.segments[0].arguments.is_none() {
+                e.path.segments[0].ident = syn::Ident::new(&self.to, e.path.segments[0].ident.span());
+            }
+        }
+    }
+    struct Un<'a> { params: &'a [String], n: usize }
+    impl<'a> Un<'a> {
+        fn names(&self, p: &Pat) -> Vec<String> {
+            use syn::visit::Visit;
+            let mut c = Collect { params: self.params, hit: Vec::new() };
+            c.visit_pat(p);
+            c.hit
+        }
+    }
+    impl<'a> VisitMut for Un<'a> {
+        fn visit_expr_while_mut(&mut self, w: &mut syn::ExprWhile) {
+            if let Expr::Let(l) = &mut *w.cond {
+                for n in self.names(&l.pat) {
+                    let mut r = Ren { from: n.clone(), to: format!("{}__p", n) };
+                    r.visit_pat_mut(&mut l.pat);
+                    r.visit_block_mut(&mut w.body);
+                    self.n += 1;
+                }
+            }
+            visit_mut::visit_expr_while_mut(self, w);
+        }
+        fn visit_expr_if_mut(&mut self, i: &mut syn::ExprIf) {
+            if let Expr::Let(l) = &mut *i.cond {
+                for n in self.names(&l.pat) {
+                    let mut r = Ren { from: n.clone(), to: format!("{}__p", n) };
+                    r.visit_pat_mut(&mut l.pat);
+                    r.visit_block_mut(&mut i.then_branch);
+                    self.n += 1;
+                }
+            }
+            visit_mut::visit_expr_if_mut(self, i);
+        }
+        fn visit_arm_mut(&mut self, a: &mut syn::Arm) {
+            for n in self.names(&a.pat) {
+                let mut r = Ren { from: n.clone(), to: format!("{}__p", n) };
+                r.visit_pat_mut(&mut a.pat);
+                if let Some((_, g)) = &mut a.guard { r.visit_expr_mut(g); }
+                r.visit_expr_mut(&mut a.body);
+                self.n += 1;
+            }
+            visit_mut::visit_arm_mut(self, a);
+        }
+    }
+    let mut u = Un { params: &params, n: 0 };
+    u.visit_block_mut(block);
+    for _ in 0..u.n { fire(fired, "R-unshadow"); }
+}
+
 pub fn mut_self(sig: &mut syn::Signature, block: &mut Block, fired: &mut Fired) {
     if let Some(syn::FnArg::Receiver(r)) = sig.inputs.first_mut() {
         if r.reference.is_none() && r.mutability.is_some() {
